@@ -28,9 +28,9 @@ class Dataset:
     def __init__(self, rng: numpy.random.Generator, nv=None, nq=None, nat=None, lattice=None, keys=None, tensor0=None,
                  settings=None, interpolator="lsq_poly", order=3, system=None, vmax=None, polys=None, nv_static=None, freq_curv=0.0, axis_split=None):
         self.rng = rng
-        self.nv = int(nv or rng.integers(5, 11))
-        self.nq = int(nq or rng.integers(1, 6))
-        self.nat = int(nat or rng.integers(1, 5))
+        self.nv = int(nv or rng.integers(4, 13))
+        self.nq = int(nq or rng.integers(1, 9))
+        self.nat = int(nat or rng.choice([1, 1, 2, 2, 3, 4, 5, 7, 10]))
         self.np = 3 * self.nat
         self.lattice = bool(rng.random() < 0.5) if lattice is None else lattice
         vmax = vmax or float(rng.uniform(300.0, 900.0))
